@@ -25,6 +25,8 @@ import (
 	"strings"
 	"testing"
 	"time"
+
+	"github.com/Cloud-Foundations/keymaster/lib/instrumentedwriter"
 )
 
 type c09ProbeShape struct {
@@ -231,7 +233,8 @@ func c09ReadyProbes(t *testing.T, res *verifResult) (string, string) {
 		mux := http.NewServeMux()
 		mux.HandleFunc(secretInjectorPath, st.secretInjectorHandler)
 		mux.HandleFunc(readyzPath, st.readyzHandler)
-		srv := httptest.NewServer(mux)
+		// the chain main() puts in front of the admin mux: access log, log filter
+		srv := httptest.NewServer(instrumentedwriter.NewLoggingHandler(NewLogFilterHandler(mux, false, st), verifNullHTTPLogger{}))
 		var opsCoq []string
 		for _, o := range ps.ops {
 			opsCoq = append(opsCoq, o.coq())
